@@ -185,6 +185,8 @@ func streamCdescribe() {
 	}
 	letters := "CDEFGAB"
 	accs := []string{"", "#", "b"}
+	// the Unicode signs the lexer takes for `#` and `b` are the same roots
+	uaccs := []string{"", "♯", "♭"}
 	type alone struct {
 		d  describedAttr
 		ok bool
@@ -212,6 +214,9 @@ func streamCdescribe() {
 			dictArgs = append(dictArgs, "--chord", filepath.Join(dir, "chord.yml"))
 		}
 		root := string(letters[c.letter-1]) + accs[c.acc-1]
+		if i%5 == 2 {
+			root = string(letters[c.letter-1]) + uaccs[c.acc-1]
+		}
 		args := append([]string{"info", "chord", "describe", "-t", root + describeSym(c.sym)}, dictArgs...)
 		if c.sharp {
 			args = append(args, "-s")
